@@ -622,6 +622,19 @@ fn run_sock(cfg: &Value) {
         futures::join!(writer, reader);
     }
 
+    let framing = cfg["framing"].as_str().unwrap_or("default").to_string();
+    let framing_of = |b: &mut tokio_util::codec::length_delimited::Builder| match framing.as_str() {
+        "le" => {
+            b.little_endian();
+        }
+        "len2" => {
+            b.length_field_length(2);
+        }
+        "big" => {
+            b.max_frame_length(64 << 20);
+        }
+        _ => {}
+    };
     let dcm = |m: &ClientMessage<String>| describe_cm(clock, m);
     let drs = |m: &Response<String>| describe_resp(m);
     let c2s: Vec<ClientMessage<String>> = msgs.iter().enumerate().map(|(i, c)| client_msg(clock, c, i as u64 + 1)).collect();
@@ -632,8 +645,12 @@ fn run_sock(cfg: &Value) {
         ($m:ident, $addr:expr, $local:expr, $cf:expr) => {{
             clock.rt.block_on(async {
                 let mut inc = tarpc::serde_transport::$m::listen::<_, CM, RS, _, _>($addr, $cf).await.expect("listen");
+                framing_of(inc.config_mut());
                 let target = $local(&inc);
-                let client = tarpc::serde_transport::$m::connect::<_, RS, CM, _, _>(target, $cf).await.expect("connect");
+                // the framing both ends agreed on is configured on the connecting side as well
+                let mut conn = tarpc::serde_transport::$m::connect::<_, RS, CM, _, _>(target, $cf);
+                framing_of(conn.config_mut());
+                let client = conn.await.expect("connect");
                 let server = inc.next().await.expect("accept").expect("accept ok");
                 if dir == "c2s" {
                     pump(client, server, c2s, &dcm, &dcm, &close).await;
@@ -1224,7 +1241,10 @@ pub fn run(a: &Args) -> Value {
                 let codec2 = ["json", "bincode"][rng.gen_range(0..2)];
                 let medium = ["tcp", "uds"][rng.gen_range(0..2)];
                 let close = ["drop", "close"][rng.gen_range(0..2)];
-                json!({"kind": "sock", "codec": codec2, "medium": medium, "dir": dir, "msgs": msgs, "transit": 0, "close": close})
+                let framing = ["default", "default", "le", "len2", "big"][rng.gen_range(0..5)];
+                // a 2-byte length field cannot carry the 70 kB bodies
+                let msgs: Vec<&str> = msgs.into_iter().filter(|m| framing != "len2" || !m.ends_with("-large")).collect();
+                json!({"kind": "sock", "codec": codec2, "medium": medium, "dir": dir, "msgs": msgs, "transit": 0, "close": close, "framing": framing})
             }
             "garbage" => {
                 let dir = ["c2s", "s2c"][rng.gen_range(0..2)];
